@@ -652,6 +652,10 @@ func (p *protocolV2) SUB(client *clientV2, params [][]byte) ([]byte, error) {
 	// This retry-loop is a work-around for a race condition, where the
 	// last client can leave the channel between GetChannel() and AddClient().
 	// Avoid adding a client to an ephemeral channel / topic which has started exiting.
+	// A topic that is being deleted stays in the topic map until the very end of the
+	// deletion: GetChannel() then creates the channel inside the dead topic, after
+	// its channels were deleted and their consumers closed, and the client would stay
+	// subscribed to a channel that no publish can reach - so this holds for any topic.
 	var channel *Channel
 	for i := 1; ; i++ {
 		topic := p.nsqd.GetTopic(topicName)
@@ -660,7 +664,7 @@ func (p *protocolV2) SUB(client *clientV2, params [][]byte) ([]byte, error) {
 			return nil, protocol.NewFatalClientErr(err, "E_SUB_FAILED", "SUB failed "+err.Error())
 		}
 
-		if (channel.ephemeral && channel.Exiting()) || (topic.ephemeral && topic.Exiting()) {
+		if (channel.ephemeral && channel.Exiting()) || topic.Exiting() {
 			channel.RemoveClient(client.ID)
 			if i < 2 {
 				time.Sleep(100 * time.Millisecond)
